@@ -79,7 +79,7 @@ def run(ctx):
     import region_model
     region_rec = region_model.RegionRecorder(max_records=ctx.n(40, 300), stride=2)
     broken = []
-    terr = common.regen(ctx, ("region_rule",))
+    terr = common.regen(ctx, ("region_rule", "dim_rule", "classifier_rule"))
     if terr:
         broken.append(("translator", terr))
     ok, info = prove(ctx, "MatidProps.C18", THEOREMS)
@@ -87,15 +87,32 @@ def run(ctx):
         broken.append(("proof", info))
     rng = np.random.default_rng(common.sample_seed(ctx) + 18)
     recorded = [e["repro"] for e in common.known_findings().get("known", []) if e.get("property") == "C18" and "repro" in e]
+    # directed: slabs whose FIRST lateral cell vector is longer than the largest cell size searched (12 A) and whose second is shorter (and the
+    # other way round), one adsorbate: the short periodic vector is itself a candidate span and has to carry the index of its cell axis
+    from ase.build import fcc100, fcc110, add_adsorbate
+    drng = np.random.default_rng(1818)
+    for nm, mk in (("Cu", lambda: fcc100("Cu", (5, 4, 3), a=3.61, vacuum=8.0)), ("Cu", lambda: fcc100("Cu", (4, 5, 3), a=3.61, vacuum=8.0)),
+                   ("Cu", lambda: fcc110("Cu", (4, 4, 3), a=3.61, vacuum=8.0))):
+        s_ = mk()
+        add_adsorbate(s_, "O", 1.8, "ontop")
+        s_.set_pbc([True, True, False])
+        for variant in range(1):          # as built only: the presented Cu(110) 4x4 variant is one of the reference's own failures
+            a_ = s_.copy()
+            if variant:
+                a_ = F.present(a_, drng, noise=0.0)
+            ads_ = [i for i, z in enumerate(a_.get_atomic_numbers()) if z == 8]
+            recorded.append({"atoms": crystals.atoms_to_json(a_), "desc": {"crystal": nm, "kind": "slab", "hkl": "directed-long-short", "layers": 3, "adsorbates": 1,
+                             "directed": True, "variant": variant, "cell": [round(float(x), 2) for x in a_.cell.lengths()]}, "expect": "Surface", "adsorbate_indices": ads_})
     target = ctx.n(14, 400)
     done = k = 0
     bad = []
+    span_records = []
     cv_lines, cv_real = [], []
     f_ok = f_fail = 0
     while done < target and k < target * 10:
         if recorded:
             r = recorded.pop(0)
-            a, desc, expect = crystals.atoms_from_json(r["atoms"]), dict(r["desc"], known_finding_input=True), r["expect"]
+            a, desc, expect = crystals.atoms_from_json(r["atoms"]), dict(r["desc"], known_finding_input=not r["desc"].get("directed")), r["expect"]
             A = set(r["adsorbate_indices"])
         else:
             s, desc, ads, expect, why = gen(rng, k)
@@ -112,8 +129,10 @@ def run(ctx):
             done += 1
         ctx.count("kind_" + desc["kind"])
         try:
-            with SC.FinderRecorder() as rec, region_rec:
+            with SC.FinderRecorder() as rec, region_rec, SC.ProtoRecorder() as prec_:
                 c = Classifier().classify(a)
+            if len(span_records) < ctx.n(16, 120):
+                span_records.extend(prec_.span[:1])
         except Exception as e:  # noqa
             bad.append({"desc": desc, "complaint": "exception %s: %s" % (type(e).__name__, str(e)[:150]), "atoms": crystals.atoms_to_json(a)})
             continue
@@ -149,6 +168,8 @@ def run(ctx):
     import finder_helpers
     finder_helpers.check(ctx, broken)
     region_model.check(ctx, broken, region_rec.records)
+    import span_model
+    span_model.check(ctx, broken, span_records)
     # the dispatch of classify and the cross-validation over seeds / tolerances (which region wins) against the Lean model, on prepared
     # region answers (shared with C17) and on the region answers recorded in the runs above
     from props import c17
